@@ -211,3 +211,67 @@ def _blocking_take(st):
     return _is_01_test(i.test, st.target.id) and len(i.body) == 1 and isinstance(i.body[0], ast.Pass) \
         and len(i.orelse) == 1 and isinstance(i.orelse[0], ast.Return) and \
         isinstance(i.orelse[0].value, ast.Name) and i.orelse[0].value.id == st.target.id
+
+
+def gate_table(ctx, R, qname, table, sources="entry", sinks="exit", note=""):
+    """named effective gates that must lie on every path sources -> sinks of one function.
+
+    table rows: dict(what=..., chains=[...] and/or text=..., frag=..., fail='T'|'F'|None (either),
+    presence=<chain whose falsy edges are exempt>, cond=(domain, spec) for finite-domain meaning,
+    protects=<predicate on node> to use other sinks, msg=...)."""
+    from ..condeval import check_cond
+    fi = ctx.index.func(qname)
+    g = ctx.an.cfg(fi)
+
+    def pick(spec, default):
+        if callable(spec):
+            return [n for n in g.nodes if spec(n)]
+        if spec == "entry":
+            return [g.entry]
+        if spec == "exit":
+            return [g.exit]
+        if spec == "yield":
+            return [n for n in g.nodes if is_value_yield(n)]
+        if spec == "return":
+            return [n for n in g.nodes if n.kind == "return"]
+        return default
+    base_sinks = pick(sinks, [g.exit])
+    srcs = pick(sources, [g.entry])
+    for row in table:
+        snk = pick(row["protects"], base_sinks) if row.get("protects") else base_sinks
+        if not snk:
+            raise AnalysisError("%s: nothing to protect for '%s' in %s" % (R, row["what"], qname))
+        tests = []
+        for t in g.nodes:
+            if t.kind != "test" or t.expr is None:
+                continue
+            s = norm(t.expr)
+            if row.get("text") is not None and s != row["text"]:
+                continue
+            if row.get("chains") and not mentions_all(t.expr, row["chains"]):
+                continue
+            if row.get("frag") and row["frag"] not in s:
+                continue
+            tests.append(t)
+        cut = set()
+        if row.get("presence"):
+            for pv in ([row["presence"]] if isinstance(row["presence"], str) else row["presence"]):
+                cut |= falsy_edges(g, pv)
+        if row.get("cut_tests"):
+            for t in g.nodes:
+                if t.kind == "test" and norm(t.expr) in row["cut_tests"]:
+                    cut.add((t.id, row["cut_tests"][norm(t.expr)]))
+        eff = []
+        for t in tests:
+            dl = dead_edge_labels(g, t, snk, cut=cut)
+            want = row.get("fail")
+            if (want and want in dl) or (not want and dl):
+                eff.append(t)
+        ok = must_pass(ctx, R, fi, g, srcs, snk, eff, row["what"],
+                       row.get("msg") or ("%s: the check is missing, not effective, or bypassed on some path%s"
+                                          % (row["what"], note)),
+                       cut=cut, start_after=(srcs != [g.entry]))
+        if ok and eff and row.get("cond"):
+            dom, spec = row["cond"]
+            check_cond(ctx, R, fi, eff[0].ast, eff[0].expr, dom, spec, row["what"] + " (meaning)",
+                       row.get("msg") or row["what"], closed=True)
